@@ -250,7 +250,10 @@ Error BaseAssembler::embed_const_pool(const Label& label, const ConstPool& pool)
 
 #ifndef ASMJIT_NO_LOGGING
   if (_logger) {
-    uint32_t data_size_log2 = Support::min<uint32_t>(Support::ctz(pool.min_item_size()), 3);
+    // `min_item_size()` is zero if no constant was successfully added (the pool can still have a size if `add()` failed
+    // after it reserved space) - `ctz(0)` is undefined, log such pool as bytes.
+    size_t min_item_size = pool.min_item_size();
+    uint32_t data_size_log2 = min_item_size ? Support::min<uint32_t>(Support::ctz(min_item_size), 3) : 0u;
     uint32_t data_size = 1 << data_size_log2;
 
     StringTmp<512> sb;
